@@ -88,3 +88,17 @@ From RP2V Require Import Model.TaxEngineGen Proofs.TaxEngineGenProofs.
 Theorem C03_source_tie_taxable_event_set : forall t, taxable_events_gen t = taxable_events t.
 Proof. exact taxable_events_gen_agrees. Qed.
 Print Assumptions C03_source_tie_taxable_event_set.
+
+(** SOURCE TIE (date window).  Which taxable events and which of their fractions a run with -f / -t reports: the per-entry tests
+    of `EntrySetIterator.__next__` re-read from abstract_entry_set.py on every run (Model/GeneratedTie.v, fragment entry_set;
+    interpreter Model/EntrySetGen.v) are [iter_window] of Model/Computed.v on the event's OWN calendar day
+    (`timestamp.date()`), compared with the dates given - not its instant against UTC midnights, which would drop events near
+    the boundary that were written with a non-UTC offset. *)
+From RP2V Require Import Model.Computed Model.GeneratedTie Model.EntrySetGen Proofs.EntrySetGenProofs.
+Theorem C03_source_tie_window_of_taxable_events :
+  (forall from_day to_day (evs : list txn),
+     iter_window_gen t_ts from_day to_day evs = iter_window (fun x => local_day (t_ts x)) from_day to_day evs) /\
+  (forall from_day to_day (gls : list gl),
+     iter_window_gen (fun g => t_ts (g_ev g)) from_day to_day gls = iter_window g_day from_day to_day gls).
+Proof. exact (conj (iter_window_gen_agrees t_ts) (iter_window_gen_agrees (fun g => t_ts (g_ev g)))). Qed.
+Print Assumptions C03_source_tie_window_of_taxable_events.
